@@ -800,11 +800,49 @@ func (c *Ctx) stageLoops() []*stageLoop {
 			if id, ok := rs.Key.(*ast.Ident); ok && id.Name != "_" {
 				idxObj = info.Defs[id]
 			}
-			ast.Inspect(rs.Body, func(m ast.Node) bool {
-				is, ok := m.(*ast.IfStmt)
-				if !ok {
+			var walk func(pk *packages.Package, info *types.Info, root ast.Node, depth int)
+			var examine func(pk *packages.Package, info *types.Info, cond ast.Expr, body []ast.Stmt)
+			walk = func(pk *packages.Package, info *types.Info, root ast.Node, depth int) {
+				ast.Inspect(root, func(m ast.Node) bool {
+					switch x := m.(type) {
+					case *ast.IfStmt:
+						examine(pk, info, x.Cond, x.Body.List)
+					case *ast.SwitchStmt:
+						// switch { case ppl.X != nil: … } — each clause is a nil test with its own body
+						if x.Tag == nil {
+							for _, st := range x.Body.List {
+								if cc, ok := st.(*ast.CaseClause); ok && len(cc.List) == 1 {
+									examine(pk, info, cc.List[0], cc.Body)
+								}
+							}
+						}
+					case *ast.CallExpr:
+						// the per-element dispatch lives in a function of the package that receives the pipeline element
+						if depth > 0 {
+							return true
+						}
+						hf, ok := calleeObj(info, x).(*types.Func)
+						if !ok || hf.Pkg() != pk.Types {
+							return true
+						}
+						takesStage := false
+						for _, a := range x.Args {
+							if tv, ok := info.Types[a]; ok && namedOf(tv.Type) == pipeT {
+								takesStage = true
+							}
+						}
+						if !takesStage {
+							return true
+						}
+						if hd := c.declOf(pk, hf); hd != nil && hd.Body != nil && len(predicateResultBool(hf)) == 0 {
+							walk(pk, pk.TypesInfo, hd.Body, depth+1)
+						}
+					}
 					return true
-				}
+				})
+			}
+			examine = func(pk *packages.Package, info *types.Info, cond ast.Expr, body []ast.Stmt) {
+				is := &ast.IfStmt{Cond: cond, Body: &ast.BlockStmt{List: body}}
 				fields, exact := nilTestedFields(info, pipeT, is.Cond)
 				exactOf := map[string]bool{}
 				for _, f := range fields {
@@ -838,7 +876,7 @@ func (c *Ctx) stageLoops() []*stageLoop {
 				for _, f := range fields {
 					exact := exactOf[f]
 					s.tested[f] = true
-					if c.buildsStage(fi.Pkg, is.Body.List, 1) && exact {
+					if c.buildsStage(pk, is.Body.List, 1) && exact {
 						s.handled[f] = true
 					}
 					for _, st := range is.Body.List {
@@ -859,8 +897,8 @@ func (c *Ctx) stageLoops() []*stageLoop {
 						})
 					}
 				}
-				return true
-			})
+			}
+			walk(fi.Pkg, info, rs.Body, 0)
 			out = append(out, s)
 			return true
 		})
@@ -967,7 +1005,7 @@ var ruleD5 = &Rule{
 // ---------------------------------------------------------------------------------
 // D4 zero-limit agreement
 
-var ruleD4 = &Rule{
+var ruleD4old = &Rule{
 	ID:    "D4",
 	Floor: 4,
 	Doc: "limit == 0 means `no limit` in the LogQL translators: every function of reader/logql/... that reads PlannerContext.Limit to bound its output " +
@@ -1172,4 +1210,16 @@ var ruleD6 = &Rule{
 		}
 		return obls
 	},
+}
+var _ = ruleD4old
+
+// predicateResultBool: non-empty when the function's only result is a bool (a predicate, not a dispatcher).
+func predicateResultBool(fn *types.Func) []bool {
+	sig := fn.Type().(*types.Signature)
+	if sig.Results().Len() == 1 {
+		if b, ok := sig.Results().At(0).Type().Underlying().(*types.Basic); ok && b.Kind() == types.Bool {
+			return []bool{true}
+		}
+	}
+	return nil
 }
